@@ -25,20 +25,23 @@ theorem exec_ext (v : Nat) (w : Nat → Nat → Nat) : ∀ (st : Stmt) (s : Stat
     unfold exec; split
     · exact Ext.refl s
     · refine ⟨fun r h => ?_, fun r h => ?_⟩
-      · simp only [List.mem_cons]; exact Or.inr h
-      · simp only [List.mem_cons, not_or] at h
-        simp only [h.1, if_false]
+      · simp only [List.mem_append]; exact Or.inr h
+      · simp only [List.mem_append, not_or] at h
+        have : ((eval s.env s.links s.next e).1.regions).contains r = false := by
+          simpa using h.1
+        simp only [this]
+        rfl
   | .writeDeep e, s => by
     unfold exec; split
     · exact Ext.refl s
     · refine ⟨fun r h => ?_, fun r h => ?_⟩
       · simp only [List.mem_append]; exact Or.inr h
       · simp only [List.mem_append, not_or] at h
-        have : (closure s.links (s.links.length + 1) [(eval s.env s.next e).1.region]).contains r = false := by
+        have : (closure s.links (s.links.length + 1) (eval s.env s.links s.next e).1.regions).contains r = false := by
           simpa using h.1
         simp only [this]
         rfl
-  | .link a b, s => by
+  | .link a f b, s => by
     unfold exec; split
     · exact Ext.refl s
     · exact ⟨fun _ h => h, fun _ _ => rfl⟩
@@ -91,7 +94,7 @@ theorem exec_sim (v : Nat) (w w' : Nat → Nat → Nat) :
     unfold exec; rw [h6]; split
     · exact ⟨h1, h2, h3, h4, h5, h6⟩
     · refine ⟨?_, ?_, ?_, ?_, ?_, ?_⟩ <;> simp [h1, h2, h3, h4, h5, h6]
-  | .link x y, a, b, h => by
+  | .link x f y, a, b, h => by
     obtain ⟨h1, h2, h3, h4, h5, h6⟩ := h
     unfold exec; rw [h6]; split
     · exact ⟨h1, h2, h3, h4, h5, h6⟩
@@ -137,7 +140,7 @@ theorem exec_mod (k v : Nat) (w : Nat → Nat → Nat) :
   | .assign x e, s, _ => by unfold exec; rfl
   | .write e, s, _ => by unfold exec; rfl
   | .writeDeep e, s, _ => by unfold exec; rfl
-  | .link a b, s, _ => by unfold exec; rfl
+  | .link a f b, s, _ => by unfold exec; rfl
   | .ite c t e, s, h => by
     unfold condsBelow at h
     simp only [Bool.and_eq_true, decide_eq_true_eq] at h
@@ -188,7 +191,7 @@ theorem neverWritesInputs_sound (e : Entry) (hc : condsBelowList e.nCond e.prog 
 theorem copyLeavesOriginal_sound (e : Entry) (hc : condsBelowList e.nCond e.prog = true) (hk : 0 < e.nCond)
     (h : copyLeavesOriginal e = true) (v : Nat) (hv : v.testBit 0 = true) (w : Nat → Nat → Nat) (store : Nat → Nat) :
     (∀ r, r < e.nIn → (run e.prog e.nIn v w store).store r = store r) ∧
-    (∀ ref, (run e.prog e.nIn v w store).result = some ref → e.nIn ≤ ref.region) := by
+    (∀ ref, (run e.prog e.nIn v w store).result = some ref → ∀ k ∈ ref.regions, e.nIn ≤ k) := by
   rw [run_mod e hc]
   have hs := run_summary e.prog e.nIn (v % 2 ^ e.nCond) w store
   unfold copyLeavesOriginal at h
@@ -205,12 +208,14 @@ theorem copyLeavesOriginal_sound (e : Entry) (hc : condsBelowList e.nCond e.prog
     omega
   · have h2 := h1.2
     rw [href] at h2
-    simpa using h2
+    intro k hk
+    have := List.all_eq_true.mp h2 k hk
+    simpa using this
 
 /-- `copy = False`: whatever is returned is the object that was passed in -/
 theorem nocopyReturnsSame_sound (e : Entry) (hc : condsBelowList e.nCond e.prog = true)
     (h : nocopyReturnsSame e = true) (v : Nat) (hv : v.testBit 0 = false) (w : Nat → Nat → Nat) (store : Nat → Nat)
-    (ref : Ref) (href : (run e.prog e.nIn v w store).result = some ref) : ref = ⟨0, true⟩ := by
+    (ref : Ref) (href : (run e.prog e.nIn v w store).result = some ref) : ref = ⟨[0], true⟩ := by
   rw [run_mod e hc] at href
   have hs := run_summary e.prog e.nIn (v % 2 ^ e.nCond) w store
   unfold nocopyReturnsSame at h
